@@ -1,0 +1,22 @@
+//go:build verif
+
+package smtp
+
+import (
+	"net"
+
+	"github.com/rs/zerolog"
+)
+
+// VerifServe runs one SMTP session on conn and returns when the session has ended.
+func (s *Server) VerifServe(id int, conn net.Conn) {
+	s.startSession(id, conn, zerolog.Nop())
+}
+
+// VerifAddr returns the address the server is listening on, nil if it is not.
+func (s *Server) VerifAddr() net.Addr {
+	if s.listener == nil {
+		return nil
+	}
+	return s.listener.Addr()
+}
